@@ -145,6 +145,7 @@ func runOne(p *core.Prog, id, tier string, seed int64, verif, repo string, start
 		}()
 		rules.SelfTest(c)
 		pr.Run(c)
+		rules.StateRule(c, id)
 		if tier == "thorough" && pr.Thorough != nil {
 			pr.Thorough(c)
 		}
